@@ -168,15 +168,3 @@ pub fn read(text: &str) -> Result<Vec<Vec<String>>, String> {
     }
     Ok(recs)
 }
-
-#[cfg(test)]
-mod tests {
-    use super::*;
-    #[test]
-    fn reader_basics() {
-        assert_eq!(read("a,b\r\n1,\"x,\"\"y\"\"\nz\"\n").unwrap(), vec![vec!["a", "b"], vec!["1", "x,\"y\"\nz"]]);
-        assert_eq!(read("a\n\"\"").unwrap(), vec![vec!["a"], vec![""]]);
-        assert_eq!(read("a,b\n1,").unwrap(), vec![vec!["a", "b"], vec!["1", ""]]);
-        assert!(read("a\"b").is_err());
-    }
-}
